@@ -216,6 +216,20 @@ let handle (fields : string list) : string =
   | ["eparse"; key; h] ->
     let en = Hashtbl.find enum_tbl key in
     (match unmarshal_text en (bytes_of_hex h) with Some v -> "ok " ^ string_of_n v | None -> "err")
+  | ["chanev"; dname; key; h; tail] | ["chanevp"; dname; key; h; tail] ->
+    (* per-channel event stream: open, one event per read result, close on the transport error *)
+    let cfg = { r_dialect = get_dialect dname; r_inkey = key_opt key } in
+    let chunks = (if h = "-" then [] else [Data (bytes_of_hex h)]) @
+                 (if tail = "-" then [] else [Fail (n_of_string (String.sub tail 1 (String.length tail - 1)))]) in
+    let s = { s_buf = []; s_rest = chunks } in
+    let rs = read_all (S (stream_left s)) cfg N0 s in
+    let evs = List.concat_map (function
+      | RFrame f -> ["F(" ^ show_frame f ^ ")"]
+      | RParse _ -> ["P"]
+      | RTransport e -> if int_of_n e = 0 then [] else ["C"]) rs in
+    (* after a transport error the channel is closed: nothing later belongs to it *)
+    let rec upto = function [] -> [] | "C" :: _ -> ["C"] | x :: t -> x :: upto t in
+    String.concat " " ("O" :: upto evs)
   | ["tsmono"; ops] ->
     let ts = List.filter_map (fun op -> match split '@' op with
                                 | [_; now] -> if now = "0" then None else Some (n_of_string now)
